@@ -301,10 +301,16 @@ def asm_hex(line, att=False):
 MODRM_CLASSES = [0x00, 0x04, 0x05, 0x40, 0x44, 0x45, 0x80, 0x84, 0x85, 0xc0, 0x24, 0x64, 0xa4, 0x0c, 0x4d, 0x9d]
 def structured(rng):
     out = []
-    for _ in range(rng.choice([0, 0, 0, 1, 1, 2, 3])):
-        out.append(rng.choice([0x66, 0x67, 0xf2, 0xf3, 0xf0, 0x2e, 0x36, 0x3e, 0x26, 0x64, 0x65]))
+    npre = rng.choice([0, 0, 0, 1, 1, 2, 3])
+    if rng.random() < 0.04:
+        npre = rng.randrange(4, 14)          # redundant prefix runs: instructions of 16 bytes and more
+    pre = rng.choice([0x66, 0x67, 0xf2, 0xf3, 0xf0, 0x2e, 0x36, 0x3e, 0x26, 0x64, 0x65])
+    for _ in range(npre):
+        out.append(pre if npre >= 4 and rng.random() < 0.8 else rng.choice([0x66, 0x67, 0xf2, 0xf3, 0xf0, 0x2e, 0x36, 0x3e, 0x26, 0x64, 0x65]))
     k = rng.random()
-    if k < 0.6:
+    if npre >= 4 and rng.random() < 0.7:
+        out += rng.choice([[0xa1], [0x81, 0x84, 0x24], [0x9a], [0xc7, 0x84, 0x24], [0x69, 0x84, 0x24], [0xe8], [0xb8]])
+    elif k < 0.6:
         out.append(rng.randrange(256))
     elif k < 0.9:
         out += [0x0f, rng.randrange(256)]
